@@ -1,7 +1,7 @@
 #!/bin/sh
 # usage: seed_confirm.sh <name>   confirms a seeded change in a scratch worktree: demo fails with it / passes without, suite still passes
 name=$1
-src=/tmp/seed/out/$name
+src=${SEED_OUT:-/tmp/seed/out}/$name
 wt=/tmp/w/sc_$name
 git -C /repo worktree add -q --detach $wt HEAD || exit 9
 cd $wt
